@@ -28,6 +28,8 @@ pub(crate) fn translate_block(
     address: u64,
     options: &Options,
 ) -> Result<BlockTranslationResult, Error> {
+    crate::translator::ensure_block_fits_address_space(address, bytes.len())?;
+
     let cs = match mode {
         Mode::X86 => capstone::Capstone::new(capstone::cs_arch::CS_ARCH_X86, capstone::CS_MODE_32),
         Mode::Amd64 => {
